@@ -777,6 +777,9 @@ def main():
         "site configurations: %d (BN_SECURITY, BN_ALLPOST) pairs (compiled-in, either / both renamed to existing boards, other case, the default board, names sharing "
         "only a prefix with a board) x %d target boards x base + all single deviations (+ sysop pairs) where the target is read-only or the names are the compiled-in ones" % (
             len(SITE_CONFIGS), len(TARGETS)),
+        "board names: every generated name (%d; per special board: 6 longer names incl. the 12-character one, 3 names in another case + longer, its proper "
+        "prefixes of length 1, 3, n-2, n-1, last character off, leading character added, first character removed) x base + 14 single + 8 pair "
+        "deviations x 5 operations" % len(names11),
         "writer uids: every cool-down state x {alone, sysop, moderator, banned, guest-post, unverified, few logins, not owner} x 5 operations for each uid of "
         "default %s / docker %s" % (jobs10["default"][3], jobs10["docker"][3])]
     c.cov["structured_rows"] = n_struct
@@ -787,10 +790,15 @@ def main():
                   "Recommend, EditPost, CrossPost, rule pieces, with snapshots of every board directory and index; getRestrictionReason and isFileOwner swept on their own; "
                   "a case is non-trivial per distinct (operation, outcome code, deviation set); + rows under site configurations naming the read-only system boards "
                   "(ini file -> initgin.InitAllConfig) x target boards by name; + cool-down rows x writer uids around MAX_BOARD / 2^16 / MAX_USERS in the default and the "
-                  "-tags docker build, neighbours' cool-down words planted in the opposite state" % len(DEV),
+                  "-tags docker build, neighbours' cool-down words planted in the opposite state; + rows on a further board whose name is related to the name of the default board / a "
+                  "read-only system board / another board (PRNG(seed) tails and case flips)" % len(DEV),
              assumptions=["site configuration: only the names of the read-only system boards (BN_SECURITY, BN_ALLPOST) are varied, loaded from an ini file through "
                           "initgin.InitAllConfig after package initialisation; BN_ALLPOST is only renamed to an existing board in its own spelling (the code also "
                           "writes its log there); every other configuration value at its default",
+                          "board names: the further board of the name rows is the board-cache slot and a fresh directory of the ordinary fixture board "
+                          "under the chosen name (name index re-sorted by cache.SortBCache), one name at a time, next to every board of the scratch BBS, "
+                          "under the compiled-in BN_SECURITY / BN_ALLPOST; ptttype.DEFAULT_BOARD is compared with the name the case carries on every row "
+                          "(observed, not proved); a name that another board carries in another case is not generated (board names are unique up to case)",
                           "builds: default (MAX_USERS 50) and -tags docker (MAX_USERS 2 000 000, MAX_BOARD 20 000); in the docker build only the cool-down rows are run, "
                           "for %d writer uids (the records of high uids live in a sparsely extended .PASSWDS of the scratch BBS)" % len(jobs10["docker"][3]),
                           "build-time switches at their defaults (USE_COOLDOWN, REJECT_FLOOD_POST, USE_NEW_BAN_SYSTEM, USE_SYSOP_EDIT, SAFE_ARTICLE_DELETE = true)",
